@@ -101,6 +101,46 @@ def oracle(tr):
     return bad
 
 
+def order_oracle(tr):
+    """messages from one sender to one recipient arrive in the order they were sent - also when the bus held them back for a
+    service that was being started: per (sender, destination as addressed, recipient), the addressed copies carry the sender's
+    messages in sending order. (Messages one sender addresses to *different* names are not ordered against each other when one
+    of the names has no owner yet: the first wait for the service, the others are delivered at once - asking for more would
+    be asking for more than the property says about "one recipient", which does not exist yet when the message is held.)"""
+    bad = []
+    sent_at = {}        # (sender unique name, serial, type) -> list of op indices at which such a message was sent
+    names = {}
+    last = {}           # (sender name, recipient cid) -> op index of the latest message already delivered
+    for i, (per, closed) in enumerate(tr.steps):
+        op = tr.ops[i]
+        sent = tr.sent(i) if op[0] in ("send", "sendx") else None
+        actor = op[1] if op[0] in ("send", "sendx") else None
+        if sent and hexname(fld(sent, "member")) == "Hello" and actor not in names:
+            for l in per.get(actor, []):
+                if fld(l, "t") == "2" and fld(l, "rs") == fld(sent, "ser") and fld(l, "sig") == "73" and hexname(fld(l, "sender")) == BUS:
+                    names[actor] = bytes.fromhex(fld(l, "body")[2:]).decode("latin1")
+        if sent and actor in names and fld(sent, "dest") not in (None, "-"):
+            sent_at.setdefault((names[actor], fld(sent, "ser"), fld(sent, "t")), []).append(i)
+        for to, ls in per.items():
+            for l in ls:
+                snd = hexname(fld(l, "sender"))
+                key = (snd, fld(l, "ser"), fld(l, "t"))
+                if snd in (None, BUS) or key not in sent_at or len(sent_at[key]) != 1 or fld(l, "dest") in (None, "-"):
+                    continue            # (made by the bus, a broadcast, or a reused serial: not attributable)
+                k = sent_at[key][0]
+                stream = (snd, to, fld(l, "dest"))
+                prev = last.get(stream)
+                if prev is not None and k < prev:
+                    bad.append((None, "step %d: connection %d received %s's message of step %d (to %s) after its message of step %d: not the order they were sent in" %
+                                (i, to, snd, k, hexname(fld(l, "dest")), prev)))
+                last[stream] = max(k, prev) if prev is not None else k
+        for c in closed:
+            names.pop(c, None)
+        if op[0] == "close":
+            names.pop(op[1], None)
+    return bad
+
+
 def run(ctx):
     check.lean_obligations(ctx, MODULE, THEOREMS)
     findings = {e["class"]: e for e in check.load_findings("C05") if e.get("status") == "known"}
@@ -115,7 +155,17 @@ def run(ctx):
     # schedules: the daemon is held while clients write and hang up, and finds it all in one turn of its main loop
     buscheck.run_histories(ctx, n // 2, 70, oracle, gen_kw={"weights": dict(WEIGHTS, frozen=22, close=2, connect=8, hello=7), "max_conns": 5,
                            "names": [b"com.example.A", b"org.x"]}, findings=findings, seed_salt=11, label="frozen-batches")
+    # messages held back for a service that is being started reach it in the order they were sent
+    from .. import actcheck, actdiff, actgen
+    actcheck.run_histories(ctx, n // 2, 60, actdiff.Svc(actgen.DEFAULT_FILES), gen_kw={"max_conns": 4, "weights": {"call": 36, "request": 14, "svcexit": 2, "actsleep": 1}},
+                           seed_salt=12, label="held-for-activation", oracle_fn=order_oracle, prop="C05")
 
 
 def replay(path):
+    import json
+    with open(path) as f:
+        d = json.load(f)
+    if (d.get("replay") or d).get("kind") == "act-history":
+        from .. import actcheck
+        return actcheck.replay_history(path, oracle_fn=order_oracle, prop="C05")
     return buscheck.replay_history(path, oracle, "C05")
